@@ -161,11 +161,20 @@ func browserSerialisable(o string) bool {
 	if !good || pp.Wild || o != strings.ToLower(o) || pp.Host == "" || pp.Port == "*" {
 		return false
 	}
+	if pp.Scheme == "" || pp.Scheme[0] < 'a' || pp.Scheme[0] > 'z' || strings.Trim(pp.Scheme, "abcdefghijklmnopqrstuvwxyz0123456789+.-") != "" {
+		return false
+	}
+	if pp.Port != "" && strings.Trim(pp.Port, "0123456789") != "" {
+		return false
+	}
+	if pp.Scheme == "https" && pp.Port == "443" || pp.Scheme == "http" && pp.Port == "80" {
+		return false // browsers elide default ports
+	}
 	h := pp.Host
 	if h[0] == '[' {
 		return h[len(h)-1] == ']' && !strings.ContainsAny(h[1:len(h)-1], "[]")
 	}
-	if strings.ContainsAny(h, "[]:") || h[0] == '.' || strings.Contains(h, "..") {
+	if strings.ContainsAny(h, "[]:") || h[0] == '.' || strings.Contains(h, "..") || strings.Trim(h, "abcdefghijklmnopqrstuvwxyz0123456789.-") != "" {
 		return false
 	}
 	labels := strings.Split(strings.TrimSuffix(h, "."), ".")
